@@ -78,6 +78,9 @@ def main():
     if os.path.isdir(os.path.join(REPO, "cmd/omniwitness")):
         replace[os.path.join(REPO, "cmd/omniwitness", "zz_verif_main.go")] = os.path.join(SRC, "zz_verif_main_omniwitness.go")
 
+    if os.path.isdir(os.path.join(REPO, "cmd/feedbastion")):
+        replace[os.path.join(REPO, "cmd/feedbastion", "zz_verif_main.go")] = os.path.join(SRC, "zz_verif_main_feedbastion.go")
+
     # 5. go build -overlay does not notice a changed //go:embed file of a package
     #    that has overlaid files (measured: the stale compiled package is reused).
     #    A generated file carrying the hash of the embedded files changes the
